@@ -153,7 +153,7 @@ def judge(acc, cls, model, payload, ref_ctc_asts=None, removed_names=()):
     # ---- names that left the tree (edit histories) are looked up FIRST, before any other query can make the
     # library refresh whatever it may have cached
     present = {f.name for f in feats}
-    for nm in removed_names:
+    for nm in reversed(list(removed_names)):      # deepest names first: a shallow miss may refresh a cache
         if nm not in present and model.get_feature_by_name(nm) is not None:
             bad("lookup-by-name", "FeatureModel.get_feature_by_name", f"{nm!r} is no longer in the tree but is still found")
     # ---- listings contain each element exactly once
